@@ -52,7 +52,9 @@ func (RootMeta) ViewFromBacking(node Node, _ BackingHook) (View, error) {
 	if !ok {
 		return nil, fmt.Errorf("node is not a root: %v", node)
 	} else {
-		return (*RootView)(root), nil
+		// copy: the view must not alias the (immutable, possibly shared) tree node
+		v := RootView(*root)
+		return &v, nil
 	}
 }
 
@@ -77,7 +79,9 @@ func (r *RootView) Type() TypeDef {
 
 // Backing, a root can be used as a view representing itself.
 func (r *RootView) Backing() Node {
-	return (*Root)(r)
+	// copy: later changes to the view must not reach into trees the node was bound into
+	out := Root(*r)
+	return &out
 }
 
 func (r *RootView) SetBacking(b Node) error {
@@ -90,7 +94,8 @@ func (r *RootView) SetBacking(b Node) error {
 }
 
 func (r *RootView) Copy() (View, error) {
-	return r, nil
+	c := *r
+	return &c, nil
 }
 
 func (r *RootView) ValueByteLength() (uint64, error) {
